@@ -251,7 +251,7 @@ func runCase(c *Case) ([]F, map[string]interface{}) {
 		clash := aliasClash(doc)
 		if xerr != nil {
 			sig := "validated-query-errors"
-			if crossSpread && (strings.Contains(text, "(") || strings.Contains(xerr.Error(), "zero Value argument")) {
+			if crossSpread && (strings.Contains(xerr.Error(), "zero Value argument") || strings.Contains(xerr.Error(), "args")) {
 				// a fragment with argument-carrying fields under a type it was not written for: the arguments of
 				// the shared selection are parsed for the first type only
 				sig = "fragment-under-another-type-arguments-parsed-once:validated-query-errors"
